@@ -82,9 +82,10 @@ class SIV:
 class SDy:
     """Exact dyadic rational m * 2**e standing for a float64 (or float32) value.
 
-    IEEE-754 arithmetic is exact whenever the exact result is representable; every
-    operation therefore checks |m| < 2**prec on its result (tracked magnitude bound
-    ``nb``: |m| < 2**nb) and raises OutsideModel when that cannot be guaranteed."""
+    IEEE-754 arithmetic returns the exact result rounded to nearest-even: when the tracked
+    magnitude bound (|m| < 2**nb) shows the exact result representable it is kept as is,
+    otherwise the rounding is modelled exactly by a case split on the bit length
+    (``rounded``).  Overflow and subnormal results are outside the model (OutsideModel)."""
     __slots__ = ("m", "e", "nb", "dtype")
     __array_ufunc__ = None
     PREC = {8: 53, 4: 24}
@@ -132,6 +133,8 @@ class SDy:
             bits, signed = dtype_bits(x.dtype)
             return SDy.rounded(x.v, 0, bits, dtype)
         if isinstance(x, (builtins.int, builtins.float, real_np.floating, real_np.integer)):
+            if isinstance(x, real_np.floating):
+                dtype = x.dtype            # NumPy scalars are strongly typed, python scalars weak
             f = builtins.float(x)   # python/NumPy convert integer constants to the nearest double
             if f != f or f in (builtins.float("inf"), -builtins.float("inf")):
                 raise OutsideModel("non-finite float constant")
@@ -150,28 +153,28 @@ class SDy:
         return a, b, e, max(self.nb + self.e - e, o.nb + o.e - e)
 
     def __add__(self, o):
-        o = SDy.of(o)
+        o = SDy.of(o, self.dtype)
         a, b, e, nb = self._align(o)
-        return SDy(z3.simplify(a + b), e, nb + 1, _fl_res(self, o))
+        return SDy.rounded(z3.simplify(a + b), e, nb + 1, _fl_res(self, o))
     __radd__ = __add__
 
     def __sub__(self, o):
-        o = SDy.of(o)
+        o = SDy.of(o, self.dtype)
         a, b, e, nb = self._align(o)
-        return SDy(z3.simplify(a - b), e, nb + 1, _fl_res(self, o))
+        return SDy.rounded(z3.simplify(a - b), e, nb + 1, _fl_res(self, o))
 
     def __mul__(self, o):
-        o = SDy.of(o)
+        o = SDy.of(o, self.dtype)
         # power-of-two constants only shift the exponent
         om = z3.simplify(o.m) if isinstance(o.m, z3.ExprRef) else z3.IntVal(o.m)
         if z3.is_int_value(om) and abs(om.as_long()) == 1:
             m = self.m if om.as_long() == 1 else -self.m
-            return SDy(z3.simplify(m), self.e + o.e, self.nb, _fl_res(self, o))
-        return SDy(z3.simplify(self.m * o.m), self.e + o.e, self.nb + o.nb, _fl_res(self, o))
+            return SDy(z3.simplify(m), self.e + o.e, self.nb, _fl_res(self, o), chk=False)
+        return SDy.rounded(z3.simplify(self.m * o.m), self.e + o.e, self.nb + o.nb, _fl_res(self, o))
     __rmul__ = __mul__
 
     def _cmp(self, o, f):
-        o = SDy.of(o)
+        o = SDy.of(o, self.dtype)
         a, b, _, _ = self._align2(o)
         return SBool(f(a, b))
 
